@@ -9,6 +9,7 @@ R19.2  sibling call sites agree: path-level and operation-level parameters are p
        (otherwise the name of a promoted inline schema depends on where / in which order it is declared)
 R19.3  response selection does not depend on the order of the `responses` mapping  [= R5.1 normal form]
 R19.10 sibling inline property schemas get distinct invented names: a name without the parent prefix only under a test of the sibling keys
+R19.11 names made up for inline schemas are tested against the declared schema names (no order-dependent merge with a declared schema)       [= R2.17]
 R19.9  names invented for inline schemas derive from the enclosing named context, not from a constant numbered in encounter order  [finding on the pinned tree]
 R19.8  references find an already registered schema by its declared name (raw-name index): no order-dependent second parse        [= R2.15]
 R19.7  a memo table kept on the parsing context is keyed by every parameter the stored conversion depends on (no first-caller-wins entries)
@@ -77,6 +78,10 @@ def run(repo: Repo, rep: Report, tier: str) -> None:
     rule_raw_name_index(repo, rep, "R19.8")
     rule_invented_names_are_order_free(repo, rep, "R19.9")
     rule_sibling_names_are_distinct(repo, rep, "R19.10")
+    # R19.11: which of a made-up and an equally named declared schema survives must not depend on the declaration order: they never share a name  [= R2.17]
+    from rules.c02 import rule_invented_names_avoid_declared
+
+    rule_invented_names_avoid_declared(repo, rep, "R19.11")
     strict = _strict_params(repo)
     rep.count("R19.1:type_strict_parser_parameters", {k: sorted(v) for k, v in strict.items()})
     # ---------------------------------------------------------------- R19.1
